@@ -84,6 +84,9 @@ Definition mk_opts (reg : option (list (bytes * Z))) (mode : Z) (eof : bool) : o
      lookup_tag := match reg with Some l => assoc_tag l | None => fun _ => None end;
      reader_mode := mode; has_eof_value := eof |}.
 
+(* fuel that always suffices (Proofs: termination): every level of nesting costs at most
+   4 units and consumes at least one byte *)
+Definition fuel_for (len : N) : nat := 8 + 4 * N.to_nat len.
+
 Definition run_doc (c : cfg) (o : opts) (m : mem) (len : N) : res result :=
-  read_doc c o builtin_handler no_ext_equal no_ext_hash (isort c) m len
-           (S (S (N.to_nat len + N.to_nat len))).
+  read_doc c o builtin_handler no_ext_equal no_ext_hash (isort c) m len (fuel_for len).
